@@ -401,6 +401,30 @@ mod obs {
         FORCE_PROVE.with(|f| f.get())
     }
 
+    std::thread_local! {
+        static FORGE: std::cell::RefCell<Option<alloc::collections::BTreeMap<usize, dusk_bls12_381::BlsScalar>>> =
+            const { std::cell::RefCell::new(None) };
+    }
+
+    /// Install (or clear) the calling thread's witness overrides: the value
+    /// of the `n`-th witness any composer on this thread allocates is
+    /// replaced by `map[n]` at allocation time.
+    pub fn set_forged_witnesses(
+        map: Option<alloc::collections::BTreeMap<usize, dusk_bls12_381::BlsScalar>>,
+    ) {
+        FORGE.with(|f| *f.borrow_mut() = map);
+    }
+
+    pub fn forged_witness(
+        n: usize,
+        honest: dusk_bls12_381::BlsScalar,
+    ) -> dusk_bls12_381::BlsScalar {
+        FORGE.with(|f| match f.borrow().as_ref() {
+            Some(m) => m.get(&n).copied().unwrap_or(honest),
+            None => honest,
+        })
+    }
+
     pub type Observer = dyn Fn(&'static str, usize) + Send + Sync + 'static;
 
     static OBSERVER: OnceLock<Box<Observer>> = OnceLock::new();
@@ -427,8 +451,8 @@ mod obs {
 
 #[cfg(feature = "std")]
 pub use obs::{
-    force_prove, install_observer, sched_point, set_force_prove,
-    set_observing,
+    force_prove, forged_witness, install_observer, sched_point,
+    set_force_prove, set_forged_witnesses, set_observing,
 };
 
 #[cfg(not(feature = "std"))]
@@ -439,6 +463,12 @@ pub fn force_prove() -> bool {
 #[cfg(not(feature = "std"))]
 #[inline]
 pub fn sched_point(_site: &'static str, _item: usize) {}
+
+#[cfg(not(feature = "std"))]
+#[inline]
+pub fn forged_witness(_n: usize, honest: BlsScalar) -> BlsScalar {
+    honest
+}
 
 // ---------------------------------------------------------------------------
 // Composer snapshot types (filled by `Composer::verif_snapshot`)
